@@ -18,7 +18,7 @@ RULE = ('random 2-D/3-D crystals (all lattice systems, one or several Wyckoff se
         'only networks with a non-singular exact D (lambda_min > 0.02 |D|) - a Green function does not exist otherwise; '
         'non-trivial = every evaluated (i,j,R); distinct = (kind, sites, classes, components, sigma)')
 ASSUMPTIONS = ['integration tolerances (Nmax=4): lattice-equation residual 1e-3 (observed 1e-10..3.3e-4 typically), or - for rate ratios that the fixed '
-               'mesh cannot resolve (observed 5e-2 at Nmax=4 -> 1e-2 at Nmax=8 -> 5e-3 at 12) - reduced to at most 0.7 of it at Nmax=8 (2-D meshes converge like 1/N_k), or - convergence is not monotonic - at most half of the larger of the Nmax=4 and Nmax=8 residuals at Nmax=16 (2-D) / 12 (3-D); whenever the largest residual of a network exceeds 1e-6 it must fall to at most half (or below 1e-6) at Nmax=16 (2-D) / 12 (3-D); symmetry / space-group invariance 1e-6 relative, scaling 1e-9, bias correction 1e-5',
+               'mesh cannot resolve (observed 5e-2 at Nmax=4 -> 1e-2 at Nmax=8 -> 5e-3 at 12) - reduced to at most 0.7 of it at Nmax=8 (2-D meshes converge like 1/N_k), or - convergence is not monotonic - at most half of the larger of the Nmax=4 and Nmax=8 residuals at Nmax=16 (2-D) / 12 (3-D); whenever the largest residual of a network exceeds 1e-6 it must fall to at most half, or below 2e-4, at Nmax=16 (2-D) / 12 (3-D) - the calculator has a mesh-independent error of its own from the Gaussian cut-off of the pole (pmaxerror=1e-8 gives 4.5e-5 on a centred rectangular lattice with D anisotropy 11, 7.7e-6 with 1e-10, 5e-8 with 1e-16); symmetry / space-group invariance 1e-6 relative, scaling 1e-9, bias correction 1e-5',
                'far field: evaluated with mild rates (ratios <= 2) because a nearly decoupled sub-network pushes the continuum regime beyond '
                'the mesh; g/pole within 10 % (named nearest-neighbour crystals, strong site-energy differences) or 25 % (random crystals with '
                'long jumps) at mesh/4 cells, within twice that at 3 cells (observed 10.4 % on rumpled omega), and not drifting away with distance - catches a wrong volume / sqrt(p) / factor 2 / additive constant',
@@ -230,7 +230,7 @@ def run_case(case):
                 devs.append(abs(GF(i, j, x) / pred - 1))
             lim = 0.10 if named else 0.25
             mon.note_max('far_field_dev_named' if named else 'far_field_dev_random', max(devs))
-            mon.check(devs[1] <= lim and devs[0] <= 2 * lim and devs[1] <= 1.2 * devs[0] + 0.05, 'C10:far-field',
+            mon.check(devs[1] <= lim and devs[0] <= 2 * lim and devs[1] <= max(1.2 * devs[0] + 0.05, 0.5 * lim), 'C10:far-field',
                       lambda: 'deviations of g/pole from 1 at n=3,%d along a%d (i,j)=(%d,%d): %s (limit %.2f) pre=%s bE=%s preT=%s bET=%s %s'
                       % (n2, a, i, j, devs, lim, pre2, bE2, preT2, bET2, dt()))
             GF.SetRates(w['pre'], w['bE'], w['preT'], w['bET'])
@@ -251,7 +251,7 @@ def run_case(case):
                         if a == i: res += wr * GFf(k, j, x - dx)
                     rf.append(abs(res))
                 mon.note_max('residual_fine/coarse', max(rf) / max(resids))
-                mon.check(max(rf) <= max(0.5 * max(resids), 1e-6), 'C10:converges-with-mesh',
+                mon.check(max(rf) <= max(0.5 * max(resids), 2e-4), 'C10:converges-with-mesh',
                           lambda: 'max residual Nmax=4: %.3e, Nmax=%d: %.3e %s' % (max(resids), Nfine, max(rf), dt()))
             except Exception as e:
                 mon.fail('C10:Nfine:raises:' + type(e).__name__, str(e)[:300] + dt())
